@@ -228,6 +228,8 @@ def run(chk):
         lean.check_theorems(chk, MODULE, THEOREMS)
     swim_device_correspondence(chk)
     mainrun_monitor(chk)
+    from checks import main_wiring as _mw
+    _mw.structural(chk)
     chk.assumptions += ["OS signal delivery, sys.exit and interpreter shutdown are not modelled (partial)", "termination of stop_all() relies on C09 (no deadlock)",
                         "device.off()/stop() of the fake devices stand for the real GPIO/serial writes"]
     chk.extra["distinct_nontrivial"] = 12
